@@ -209,6 +209,9 @@ class Peer(object):
                 result = int(result)
             except ValueError:
                 pass
+        # bool is a subclass of int, but a JSON boolean is neither a port nor a limit
+        if isinstance(result, bool):
+            return None
         return result if isinstance(result, int) else None
 
     def _string(self, key):
